@@ -1,6 +1,7 @@
 import OpcuaModel.Model.Recv
 import OpcuaModel.Model.RecvRaw
 import OpcuaModel.Model.Gate
+import OpcuaModel.Gen.RecvFacts
 /-
   C13 — the channel receive path survives any peer byte stream.
 
@@ -11,8 +12,13 @@ import OpcuaModel.Model.Gate
   outside the model: what it does with hostile bytes is C02.
 
   * no panic: holds for every frame and state as soon as the receive buffer has
-    at least 12 bytes; FALSE below: a client that adopts a hostile Acknowledge
-    with `ReceiveBufSize < 12` panics on the next frame (`C13_finding_small_rcvbuf_*`).
+    at least 12 bytes — which, since `fix:` 30678c7, the handshake guarantees for
+    every client connection whose own configuration is sane (`C13_nopanic_client`,
+    with the handshake facts read from the source); a server connection uses its
+    own configuration.  Below 12 bytes the path does panic
+    (`C13_small_rcvbuf_*_direct`): reachable only through a `Conn` constructed
+    directly with such a buffer size, no longer from a peer (the former findings
+    C13.ack-small-rcvbuf / C13.ack-huge-rcvbuf are repaired).
   * progress: every frame produces exactly one outcome; only a panic or EOF
     ends the run.
   * memory: the number of retained chunks and payload bytes is bounded by
@@ -62,17 +68,55 @@ theorem C13_nopanic_run (cfg : RawCfg) (h : 12 ≤ cfg.rcvBuf) (st : RawSt) (fs 
       · exact hp
       · exact ih _ o ho
 
-/-- FINDING C13.ack-small-rcvbuf (a): with `ReceiveBufSize < 8` — a value a
-    client adopts unchecked from the server's Acknowledge — `Conn.Receive`
-    panics on its own buffer before it has read a byte. -/
-theorem C13_finding_small_rcvbuf_conn (cfg : RawCfg) (h : cfg.rcvBuf < 8) (st : RawSt) (f : Frame) :
+/-- **No panic, client side (full strength).**  A client whose own Hello
+    announces a receive buffer of 0 ("no preference") or at least 12 bytes, after
+    a handshake that SUCCEEDED against any Acknowledge whatsoever, never panics
+    on any frame in any state — provided the handshake refuses buffer sizes
+    below some `minBuf ≥ 12`. -/
+theorem C13_nopanic_client (minBuf : Nat) (capped : Bool) (hmin : 12 ≤ minBuf) (own ackRcv ackSnd b : Nat)
+    (hown : own = 0 ∨ minBuf ≤ own) (hs : handshake minBuf capped own ackRcv ackSnd = some b)
+    (cfg : RawCfg) (hcfg : cfg.rcvBuf = b) (st : RawSt) (f : Frame) :
+    (rawStep cfg st f).2.isPanic = false := by
+  have := handshake_lower hs hown
+  exact C13_nopanic cfg (by omega) st f
+
+/-- … instantiated with what the generator reads from `uacp.Conn.Handshake` of the
+    current source (minimum 8192): the hypothesis `ReceiveBufSize ≥ 12` of
+    `C13_nopanic` is discharged for every client connection with a sane own
+    configuration -/
+theorem C13_nopanic_client_current (own ackRcv ackSnd b : Nat)
+    (hown : own = 0 ∨ Gen.RecvFacts.ackMinBufSize ≤ own)
+    (hs : handshake Gen.RecvFacts.ackMinBufSize Gen.RecvFacts.ackRcvCappedByHello own ackRcv ackSnd = some b)
+    (cfg : RawCfg) (hcfg : cfg.rcvBuf = b) (st : RawSt) (f : Frame) :
+    (rawStep cfg st f).2.isPanic = false :=
+  C13_nopanic_client _ _ (by decide) own ackRcv ackSnd b hown hs cfg hcfg st f
+
+/-- the buffer a client allocates per frame is bounded by its own announcement:
+    a hostile Acknowledge can no longer dictate it (former C13.ack-huge-rcvbuf) -/
+theorem C13_client_rcvbuf_bounded (own ackRcv ackSnd b : Nat) (hown : own ≠ 0)
+    (hcap : Gen.RecvFacts.ackRcvCappedByHello = true)
+    (hs : handshake Gen.RecvFacts.ackMinBufSize Gen.RecvFacts.ackRcvCappedByHello own ackRcv ackSnd = some b) :
+    b ≤ own := by
+  rw [hcap] at hs
+  exact handshake_upper hs hown
+
+/-- the former witnesses are refused now: Acknowledge{4}, {10}; and 4294967295 is capped -/
+theorem C13_hostile_ack_refused_or_capped :
+    handshake Gen.RecvFacts.ackMinBufSize Gen.RecvFacts.ackRcvCappedByHello 65535 4 65535 = none ∧
+    handshake Gen.RecvFacts.ackMinBufSize Gen.RecvFacts.ackRcvCappedByHello 65535 10 65535 = none ∧
+    handshake Gen.RecvFacts.ackMinBufSize Gen.RecvFacts.ackRcvCappedByHello 65535 65535 100 = none ∧
+    handshake Gen.RecvFacts.ackMinBufSize Gen.RecvFacts.ackRcvCappedByHello 65535 4294967295 65535 = some 65535 := by decide
+
+/-- a `Conn` CONSTRUCTED DIRECTLY with `ReceiveBufSize < 8` (not reachable from a
+    peer any more): `Conn.Receive` panics on its own buffer before it has read a byte -/
+theorem C13_small_rcvbuf_conn_direct (cfg : RawCfg) (h : cfg.rcvBuf < 8) (st : RawSt) (f : Frame) :
     (rawStep cfg st f).2 = .panic .connSmallBuf := by
   simp [rawStep, h]
 
-/-- FINDING C13.ack-small-rcvbuf (b): with `8 ≤ ReceiveBufSize < 12` every
-    frame of fewer than 12 bytes (other than ERR) makes `readChunk` panic in
-    `b[:hdrlen]`; with a larger buffer the same frames are decode errors. -/
-theorem C13_finding_small_rcvbuf_header (cfg : RawCfg) (h8 : 8 ≤ cfg.rcvBuf) (h12 : cfg.rcvBuf < 12)
+/-- likewise, constructed directly with `8 ≤ ReceiveBufSize < 12`: every frame of
+    fewer than 12 bytes (other than ERR) makes `readChunk` panic in `b[:hdrlen]`;
+    with a larger buffer the same frames are decode errors. -/
+theorem C13_small_rcvbuf_header_direct (cfg : RawCfg) (h8 : 8 ≤ cfg.rcvBuf) (h12 : cfg.rcvBuf < 12)
     (st : RawSt) (f : Frame) (hl : f.raw.length < 12) (he : f.raw.take 3 ≠ tERR) :
     (rawStep cfg st f).2 = .panic .headerSlice := by
   have : ¬ cfg.rcvBuf < 8 := by omega
